@@ -363,10 +363,169 @@ def endFasta (a : Ascii) (sq : Sq) : Ascii × Sq × Status :=
     | some c => if c != chGt then (a.fail, sq, .eformat) else (a, { sq with eoff := a.boff + a.bpos - 1 }, .ok)
   else (a, sq, .ok)
 
-/-- format dispatch (`ascii->parse_header` etc.); only FASTA-family formats are modelled so far -/
-def parseHeader (a : Ascii) (sq : Sq) : Ascii × Sq × Status := headerFasta a sq
-def skipHeader (a : Ascii) (sq : Sq) : Ascii × Sq × Status := skipFasta a sq
-def parseEnd (a : Ascii) (sq : Sq) : Ascii × Sq × Status := endFasta a sq
+/-! ## line-based formats: EMBL / UniProt, GenBank / DDBJ -/
+
+/-- `while (cond(buf)) { if ((status = loadbuf(sqfp)) == eslEOF) return eslEOF; }` — returns `.ok` when a line failing `cond` is current -/
+def skipLinesWhile (cond : Bytes → Bool) : Nat → Ascii → Ascii × Status
+  | 0, a => (a, .fault)
+  | fuel + 1, a =>
+    if cond a.line then
+      let (a, st) := loadbuf a
+      if st != .ok then (a, st) else skipLinesWhile cond fuel a
+    else (a, .ok)
+
+/-- `esl_sq_AppendDesc` -/
+def appendDesc (sq : Sq) (piece : Bytes) : Sq :=
+  { sq with desc := if (cstr sq.desc).size > 0 then cstr sq.desc ++ #[32] ++ piece else piece }
+
+/-- the `do { loadbuf; [AC line] [DE line] } while (not SQ line)` loop of `header_embl` (`parse = true`) / `skip_embl` -/
+def emblScan (parse : Bool) : Nat → Ascii → Sq → Ascii × Sq × Status
+  | 0, a, sq => (a, sq, .fault)
+  | fuel + 1, a, sq =>
+    let (a, st) := loadbuf a
+    if st == .fault then (a, sq, .fault) else
+    if st != .ok then (a.fail, sq, .eformat) else
+    let r : Option Sq :=
+      if parse && hasPrefix a.line "AC   " && (cstr sq.acc).size == 0 then
+        match strtok (cstrFrom a.line 5) [59] with
+        | none => none
+        | some tok => some { sq with acc := tok }
+      else some sq
+    match r with
+    | none => (a.fail, sq, .eformat)
+    | some sq =>
+    let sq := if parse && hasPrefix a.line "DE   " then appendDesc sq (chopped (a.line.extract 5 a.nc)) else sq
+    if hasPrefix a.line "SQ   " then (a, sq, .ok) else emblScan parse fuel a sq
+
+/-- `header_embl()` (`parse = true`) and `skip_embl()` (`parse = false`) -/
+def headerEmbl (parse : Bool) (a : Ascii) (sq : Sq) : Ascii × Sq × Status :=
+  if a.nc == 0 then (a, sq, .eof) else
+  let (a, st) := skipLinesWhile isBlankStr (fuelOf a) a
+  if st != .ok then (a, sq, st) else
+  if !hasPrefix a.line "ID   " then (a.fail, sq, .eformat) else
+  let r : Option Sq :=
+    if parse then
+      match strtok (cstrFrom a.line 5) [32, 59] with
+      | none => none
+      | some tok => some { sq with name := tok }
+    else some sq
+  match r with
+  | none => (a.fail, sq, .eformat)
+  | some sq =>
+  let sq := { sq with roff := a.boff }
+  let sq := if parse then sq else { sq with name := #[], acc := #[], desc := #[] }
+  let (a, sq, st) := emblScan parse (fuelOf a) a sq
+  if st != .ok then (a, sq, st) else
+  let (a, st) := loadbuf a
+  if st == .fault then (a, sq, .fault) else
+  if st != .ok then (a.fail, sq, .eformat) else
+  (a, { sq with hoff := a.boff - 1, doff := a.boff }, .ok)
+
+/-- `end_embl()` = `end_genbank()`: the terminator is looked for at the start of the line buffer -/
+def endEmbl (a : Ascii) (sq : Sq) : Ascii × Sq × Status :=
+  if !hasPrefix a.line "//" then (a.fail, sq, .eformat) else
+  let sq := { sq with eoff := a.boff + a.nc - 1 }
+  let (a, st) := loadbuf a
+  if st == .fault then (a, sq, .fault) else (a, sq, .ok)
+
+/-- the `do { loadbuf; [VERSION] [DEFINITION] } while (not ORIGIN)` loop of `header_genbank` / `skip_genbank` -/
+def genbankScan (parse : Bool) : Nat → Ascii → Sq → Ascii × Sq × Status
+  | 0, a, sq => (a, sq, .fault)
+  | fuel + 1, a, sq =>
+    let (a, st) := loadbuf a
+    if st == .fault then (a, sq, .fault) else
+    if st != .ok then (a.fail, sq, .eformat) else
+    let r : Option Sq :=
+      if parse && hasPrefix a.line "VERSION   " then
+        if a.nc < 12 then none else
+        match strtok (cstrFrom a.line 12) [32, 9, 10] with
+        | none => none
+        | some tok => some { sq with acc := tok }
+      else some sq
+    match r with
+    | none => (a.fail, sq, .eformat)
+    | some sq =>
+    let sq := if parse && hasPrefix a.line "DEFINITION " && a.nc ≥ 12 then appendDesc sq (chopped (a.line.extract 12 a.nc)) else sq
+    if hasPrefix a.line "ORIGIN" then (a, sq, .ok) else genbankScan parse fuel a sq
+
+/-- `header_genbank()` (`parse = true`, with the short-LOCUS repair 742bef8) and `skip_genbank()` -/
+def headerGenbank (parse : Bool) (a : Ascii) (sq : Sq) : Ascii × Sq × Status :=
+  if a.nc == 0 then (a, sq, .eof) else
+  let (a, st) := skipLinesWhile (fun l => !hasPrefix l "LOCUS   ") (fuelOf a) a
+  if st != .ok then (a, sq, st) else
+  let r : Option Sq :=
+    if parse then
+      if a.nc < 12 then none else
+      match strtok (cstrFrom a.line 12) [32] with
+      | none => none
+      | some tok => some { sq with name := tok }
+    else some sq
+  match r with
+  | none => (a.fail, sq, .eformat)
+  | some sq =>
+  let sq := { sq with roff := a.boff }
+  let sq := if parse then sq else { sq with name := #[], acc := #[], desc := #[] }
+  let (a, sq, st) := genbankScan parse (fuelOf a) a sq
+  if st != .ok then (a, sq, st) else
+  let (a, st) := loadbuf a
+  if st == .fault then (a, sq, .fault) else
+  if st != .ok then (a.fail, sq, .eformat) else
+  (a, { sq with hoff := a.boff - 1, doff := a.boff }, .ok)
+
+/-- `end_daemon()` -/
+def endDaemonSkip (p : UInt8 → Bool) : Nat → Ascii → UInt8 → Ascii × UInt8 × Bool
+  | 0, a, c => (a, c, false)
+  | fuel + 1, a, c =>
+    if p c && a.bpos < a.nc then
+      match a.bufGet a.bpos with
+      | none => (a, c, false)
+      | some x => endDaemonSkip p fuel { a with bpos := a.bpos + 1 } x
+    else (a, c, true)
+
+def endDaemon (a : Ascii) (sq : Sq) : Ascii × Sq × Status :=
+  if a.nc < 3 then (a.fail, sq, .eformat) else
+  match a.bufGet a.bpos with
+  | none => (a, sq, .fault)
+  | some c1 =>
+  let a := { a with bpos := a.bpos + 1 }
+  if c1 != 47 then (a.fail, sq, .eformat) else
+  match a.bufGet a.bpos with
+  | none => (a, sq, .fault)
+  | some c2 =>
+  let a := { a with bpos := a.bpos + 1 }
+  if c2 != 47 then (a.fail, sq, .eformat) else
+  let (a, c, ok1) := endDaemonSkip (fun c => c != chNl && c != chCr) (a.nc + 1) a c2
+  if !ok1 then (a, sq, .fault) else
+  let (a, _, ok2) := endDaemonSkip (fun c => c == chNl || c == chCr) (a.nc + 1) a c
+  if !ok2 then (a, sq, .fault) else (a, sq, .ok)
+
+/-- `fileheader_hmmpgmd()` -/
+def fileheaderHmmpgmd (a : Ascii) : Ascii × Status :=
+  match a.bufGet a.bpos with
+  | none => (a, .fault)
+  | some c =>
+  let (a, st, c) := skipWhile isSpace (fuelOf a) a .ok c
+  if st == .eof then (a, .eof) else
+  if st == .fault then (a, .fault) else
+  if c != 35 then (a.fail, .eformat) else
+  let (a, st, _) := skipWhile (fun c => c != chNl && c != chCr) (fuelOf a) a st c
+  if st == .eof then (a, .eof) else
+  if st == .fault then (a, .fault) else (a, .ok)
+
+/-- format dispatch (`ascii->parse_header`, `skip_header`, `parse_end`): FASTA 1, EMBL 2, GenBank 3, DDBJ 4, UniProt 5,
+    daemon 7, hmmpgmd 8 -/
+def parseHeader (a : Ascii) (sq : Sq) : Ascii × Sq × Status :=
+  if a.fmt == 2 || a.fmt == 5 then headerEmbl true a sq
+  else if a.fmt == 3 || a.fmt == 4 then headerGenbank true a sq
+  else headerFasta a sq
+def skipHeader (a : Ascii) (sq : Sq) : Ascii × Sq × Status :=
+  if a.fmt == 2 || a.fmt == 5 then headerEmbl false a sq
+  else if a.fmt == 3 || a.fmt == 4 then headerGenbank false a sq
+  else skipFasta a sq
+def parseEnd (a : Ascii) (sq : Sq) : Ascii × Sq × Status :=
+  if a.fmt == 2 || a.fmt == 5 || a.fmt == 3 || a.fmt == 4 then endEmbl a sq
+  else if a.fmt == 7 then endDaemon a sq
+  else endFasta a sq
 
 /-- the `do { seebuf; [GrowTo; addbuf;] L += n; eoff = …; if EOD break; } while (loadbuf == OK)` loop shared (as three
     textual copies) by `sqascii_Read`, `ReadSequence` (`store = true`) and `ReadInfo` (`store = false`).
@@ -632,6 +791,136 @@ def readWindow (a : Ascii) (sq : Sq) (C W : Int) : Ascii × Sq × Status :=
     else if st == .ok then
       (a, { sq with end_ := sq.start + sq.C + nres - 1, W := nres }, .ok)
     else (a, sq, st)
+
+/-! ## ReadBlock -/
+
+/-- `skip_whitespace()` -/
+def skipWsLoop : Nat → Ascii → UInt8 → Ascii × Status × UInt8
+  | 0, a, c => (a, .fault, c)
+  | fuel + 1, a, c =>
+    if isSpace c then
+      let a := { a with bpos := a.bpos + 1 }
+      let (a, st) := if a.bpos == a.nc then loadbuf a else (a, Status.ok)
+      if st == .eof then (a, .eof, c) else
+      if st == .fault then (a, .fault, c) else
+      match a.bufGet a.bpos with
+      | none => (a, .fault, c)
+      | some c' => if c' ≥ 128 then (a, .fault, c') else skipWsLoop fuel a c'
+    else (a, .ok, c)
+
+def skipWhitespace (a : Ascii) : Ascii × Status :=
+  if a.nc == 0 then (a, .eof) else
+  let (a, st) := if a.bpos == a.nc then loadbuf a else (a, Status.ok)
+  if st == .eof then (a, .eof) else
+  if st == .fault then (a, .fault) else
+  match a.bufGet a.bpos with
+  | none => (a, .fault)
+  | some c =>
+    if c ≥ 128 then (a, .fault) else      -- sqfp->inmap[(int) c] with a negative char
+    let (a, st, c) := skipWsLoop (fuelOf a) a c
+    if st != .ok then (a, st) else
+    match a.inmap[c.toNat]? with
+    | none => (a, .fault)
+    | some x => if x == dsqEod then (a, .eod) else (a, .ok)
+
+/-- an `ESL_SQ_BLOCK` -/
+structure Block where
+  count : Nat := 0
+  listSize : Nat := 0
+  complete : Bool := true
+  list : Array Sq := #[]
+  deriving Inhabited
+
+def maxResidueCount : Nat := 1024 * 1024
+
+/-- `esl_sq_Copy(src, dst)` between objects of the same mode (allocations of `dst` are kept / grown) -/
+def Sq.copyFrom (dst src : Sq) : Sq :=
+  let dst := dst.growTo src.n
+  { dst with name := cstr src.name, source := cstr src.source, acc := cstr src.acc, desc := cstr src.desc, seq := src.seq,
+             start := src.start, end_ := src.end_, C := src.C, W := src.W, L := src.L,
+             roff := src.roff, doff := src.doff, hoff := src.hoff, eoff := src.eoff }
+
+/-- the loop of the `!long_target` branch -/
+def blockShortLoop : Nat → Ascii → Block → (i size maxSeq : Nat) → Status → Ascii × Block × Nat × Status
+  | 0, a, b, i, _, _, _ => (a, b, i, .fault)
+  | fuel + 1, a, b, i, size, maxSeq, st =>
+    if i < maxSeq && size < maxResidueCount then
+      let (a, sq, st) := read a (b.list.getD i {})
+      let b := { b with list := b.list.setIfInBounds i sq }
+      if st != .ok then (a, b, i, st) else
+      blockShortLoop fuel a { b with count := b.count + 1 } (i + 1) (size + sq.n) maxSeq st
+    else (a, b, i, st)
+
+/-- the main loop of the `long_target` branch; returns `(…, some status)` for an early `return` -/
+def blockLongLoop : Nat → Ascii → Block → Sq → (i size maxSeq maxRes : Nat) → (maxInit : Bool) → Status →
+    Ascii × Block × Nat × Status × Bool
+  | 0, a, b, _, i, _, _, _, _, _ => (a, b, i, .fault, true)
+  | fuel + 1, a, b, tmp, i, size, maxSeq, maxRes, maxInit, st =>
+    if i < maxSeq && size < maxRes then
+      let request : Nat := if maxInit then maxRes else max (maxRes - size) (maxRes / 20)
+      let tmp := tmp.reuse
+      let li := (b.list.getD i {}).reuse
+      let (a, tmp, st) := readWindow a tmp 0 request
+      let li := li.copyFrom tmp
+      let b := { b with list := b.list.setIfInBounds i li }
+      if st != .ok && st != .eod then (a, b, i, st, false) else
+      let size := size + (li.n - li.C.toNat)
+      let li := { li with L := a.L }
+      let b := { b with list := b.list.setIfInBounds i li, count := b.count + 1 }
+      if size ≥ maxRes then
+        let (a, st2) := skipWhitespace a
+        if st2 == .fault then (a, b, i, .fault, true) else
+        (a, { b with complete := st2 != .ok }, i, .ok, true)
+      else if st == .eod then
+        let b := { b with list := b.list.setIfInBounds i { li with L := 0 } }
+        blockLongLoop fuel a b tmp (i + 1) size maxSeq maxRes maxInit .ok
+      else
+        let tmp := { tmp.reuse with start := li.start, C := 0 }
+        let (a, tmp, st) := readWindow a tmp 0 maxRes
+        if st != .eod then (a, b, i, st, true) else
+        blockLongLoop fuel a b tmp (i + 1) size maxSeq maxRes maxInit .ok
+    else (a, b, i, st, false)
+
+/-- `sqascii_ReadBlock()` -/
+def readBlock (a : Ascii) (b : Block) (maxRes maxSeq : Int) (maxInit longT : Bool) : Ascii × Block × Status :=
+  let b := { b with count := 0 }
+  let maxSeq : Nat := if maxSeq < 1 || maxSeq > b.listSize then b.listSize else maxSeq.toNat
+  if !longT then
+    let (a, b, i, st) := blockShortLoop (fuelOf a) a b 0 0 maxSeq .ok
+    if st == .fault then (a, b, .fault) else
+    let st := if st == .eof && i > 0 then Status.ok else st
+    (a, { b with complete := true }, st)
+  else
+    let maxRes : Nat := if maxRes < 1 then maxResidueCount else maxRes.toNat
+    let l0 := b.list.getD 0 {}
+    let tmp : Sq := { digital := true, abc := l0.abc }
+    -- continuation of an incomplete window
+    let pre : Ascii × Block × Nat × Nat × Status × Option Status :=     -- (a, b, i, size, status, early return)
+      if !b.complete then
+        let (a, l0, st) := readWindow a l0 l0.C maxRes
+        let b := { b with list := b.list.setIfInBounds 0 l0 }
+        if st == .ok then
+          let size := l0.n - l0.C.toNat
+          let l0 := { l0 with L := a.L }
+          let b := { b with list := b.list.setIfInBounds 0 l0, count := 1 }
+          if size == maxRes then
+            let (a, st2) := skipWhitespace a
+            if st2 == .fault then (a, b, 1, size, .fault, some .fault) else
+            (a, { b with complete := st2 != .ok }, 1, size, .ok, some .ok)
+          else
+            let tmp := { tmp.reuse with start := l0.start, C := 0 }
+            let (a, _, st) := readWindow a tmp 0 maxRes
+            if st != .eod then (a, b, 1, size, st, some st) else (a, b, 1, size, .ok, none)
+        else if st == .eod then (a, b, 0, 0, .eod, none)
+        else (a, b, 0, 0, st, some st)
+      else (a, b, 0, 0, .ok, none)
+    match pre with
+    | (a, b, _, _, _, some st) => (a, b, st)
+    | (a, b, i, size, st, none) =>
+      let (a, b, i, st, early) := blockLongLoop (fuelOf a) a b tmp i size maxSeq maxRes maxInit st
+      if early then (a, b, st) else
+      let st := if st == .eof && i > 0 then Status.ok else st
+      (a, { b with complete := true }, st)
 
 /-! ## esl_sqascii_WriteFasta -/
 
